@@ -1,4 +1,4 @@
-import SA.Model.AcceptTimed
+import SA.Model.AcceptFail
 namespace SA.Drv.Accept
-def entries : List (String × (List String → String)) := [("hol", SA.Accept.handleHol), ("stall", SA.Accept.handleStallT), ("xtalk", SA.Accept.handleXtalk), ("isolate", SA.Accept.handleIsolate), ("recon", SA.Accept.handleRecon)]
+def entries : List (String × (List String → String)) := [("hol", SA.Accept.handleHol), ("stall", SA.Accept.handleStallF), ("xtalk", SA.Accept.handleXtalk), ("isolate", SA.Accept.handleIsolate), ("recon", SA.Accept.handleRecon)]
 end SA.Drv.Accept
